@@ -5,26 +5,26 @@ props=[json.loads(l) for l in open('/verif/properties.jsonl')]
 NOTE="Trusted: go/ssa's translation (x/tools v0.29.0), the gosym interpreter and its intrinsics (checked on every run by replaying witnesses of explored paths natively and comparing observations), z3 4.8.12 (z3 5.1 / cvc5 for retries), the harness oracle, the stubs listed in the evidence file, and the bounds recorded there. Nothing is claimed outside the bounds."
 TECH="symbolic execution of go/ssa + SMT (z3), native replay of witnesses and counterexamples"
 claimed={
- "C01": ("Bounded symbolic model checking of the sanitisation of every string class that reaches the terminal from outside: JSON strings through the accessor, HTML text/attribute data as the parser can deliver it (any scalar), and raw response bytes quoted in error items; one oracle (no C0/DEL/C1 outside servitor's own SGR sequences) decided over all byte/rune values within the bound.", "4/C01"),
- "C02": ("Bounded symbolic model checking of client.FetchUnknown over a scripted multi-origin world: every object it returns under an id must have been served (after redirects) by the host the id names - generated objects carry a tag and the harness knows which origin really served each; id claims include URLs whose address and port digits are solver variables, so 'same host' is decided by SMT. Replayed against real TLS servers on loopback.", "4/C02"),
- "C03": ("Bounded symbolic model checking of jtp.Get over a scripted network world: a general response (symbolic status digits, header sets, bodies) is classified against a reference written from the statement, redirects are followed within the budget and resolved against the issuing URL, and sequences of fetches over redirect graphs with small caches must return what each fetch returns on its own. Counterexamples are replayed against real TLS servers on loopback.", "4/C03"),
- "C04": ("Bounded symbolic model checking of the bytes servitor writes: URLs with arbitrary ASCII bytes in path, authority, scheme and userinfo positions go through url.Parse and jtp.Get; every connection must carry exactly one write consisting of the request line, Host and Accept (four CR LF), go to the URL's host and port over TLS, and never be opened for a non-https URL.", "4/C04"),
- "C05": ("Bounded symbolic model checking of fault handling in jtp.Get: refused connections, a cut or a stall after every byte position k of the response (k symbolic), trickling and silent peers, at either hop of a redirect; the fetch must end in an error (or the complete document if everything needed had arrived), within a bounded virtual time, and a read on a silent peer without a deadline is reported as a hang.", "4/C05"),
- "C06": ("Bounded symbolic model checking of crash-freedom: the real constructors and every item method run on well-formed base objects in which one key is dropped or replaced by an arbitrary JSON value (symbolic booleans and doubles, candidate strings, lists, objects), at negative, zero and positive widths and for every 64-bit link number; every reachable panic is a violation. The 'promptly' half of the statement is outside this technique (DESIGN 6).", "4/C06"),
- "C07": ("Bounded symbolic model checking of ui.Update against a reference model of the documented keymap: every byte value for each key of short sequences over thread, list and empty pages, and one key from arbitrary states including over-long selection numbers; mode, buffer, history position and highlighted item must match after background loads settle, and no key may panic.", "4/C07"),
+ "C01": ("Bounded symbolic model checking of the sanitisation of every string class that reaches the terminal from outside: JSON strings through the accessor, HTML text/attribute data as the parser can deliver it (any scalar), raw response bytes quoted in error items, and a control character under any JSON key the code reads (keys discovered from the current source) in any value shape; one oracle (no C0/DEL/C1 outside servitor's own SGR sequences) decided over all byte/rune values within the bound.", "5/C01"),
+ "C02": ("Bounded symbolic model checking of client.FetchUnknown over a scripted multi-origin world: every object it returns under an id must have been served (after redirects) by the host the id names - generated objects carry a tag and the harness knows which origin really served each; id claims include URLs whose address and port digits are solver variables, so 'same host' is decided by SMT. Replayed against real TLS servers on loopback.", "5/C02"),
+ "C03": ("Bounded symbolic model checking of jtp.Get over a scripted network world: a general response (symbolic status digits, header sets, bodies) is classified against a reference written from the statement, redirects are followed within the budget and resolved against the issuing URL, and sequences of fetches over redirect graphs with small caches must return what each fetch returns on its own. Counterexamples are replayed against real TLS servers on loopback.", "5/C03"),
+ "C04": ("Bounded symbolic model checking of the bytes servitor writes: URLs with arbitrary ASCII bytes in path, authority, scheme and userinfo positions go through url.Parse and jtp.Get; every connection must carry exactly one write consisting of the request line, Host and Accept (four CR LF), go to the URL's host and port over TLS, and never be opened for a non-https URL.", "5/C04"),
+ "C05": ("Bounded symbolic model checking of fault handling in jtp.Get: refused connections, a cut or a stall after every byte position k of the response (k symbolic), trickling and silent peers, at either hop of a redirect; the fetch must end in an error (or the complete document if everything needed had arrived), within a bounded virtual time, and a read on a silent peer without a deadline is reported as a hang.", "5/C05"),
+ "C06": ("Bounded symbolic model checking of crash-freedom: the real constructors and every item method run on well-formed base objects in which one key is dropped or replaced by an arbitrary JSON value (symbolic booleans and doubles, candidate strings, lists, objects), at negative, zero and positive widths and for every 64-bit link number; every reachable panic is a violation; minimal objects with an arbitrary value under any key the code reads (keys discovered from the current source); paging over cyclic and endlessly empty page chains must return (step-budget exhaustion is a violation). The 'promptly' half for deep nesting of the statement is outside this technique (DESIGN 8).", "5/C06"),
+ "C07": ("Bounded symbolic model checking of ui.Update against a reference model of the documented keymap: every byte value for each key of short sequences over thread, list and empty pages, and one key from arbitrary states including over-long selection numbers; mode, buffer, history position and highlighted item must match after background loads settle, and no key may panic.", "5/C07"),
  "C08": ("Bounded model checking of schedules: the engine owns the scheduler, explores every order in which the event goroutines (keys, resizes, open/feed subcommands) and the loaders they start can acquire the UI lock, and checks every explored schedule with a vector-clock happens-before monitor over all loads and stores (UI state, the frame log behind the output callback, the fan-out results); a goroutine blocked for ever is a deadlock. Races are confirmed natively by the Go race detector.", "3.6, 4/C08"),
- "C09": ("Bounded symbolic model checking of the outbox, replies and author filters: the real constructors run against a scripted two-host world whose entries are legitimate or one of several impostor kinds; every entry must appear in its position, as a genuine item exactly when the generator's ground truth says so (including an actor URL with symbolic address/port digits).", "4/C09"),
- "C10": ("Bounded symbolic model checking of pub.Collection.Harvest through its continuations: symbolic page chains (embedded pages, empty pages, failing and ill-typed links, cycles), symbolic request sizes and start offset; delivered items must be the true sequence in order, a short answer or an error item must be justified by the end of the chain, a failing page or more than three consecutive empty pages.", "4/C10"),
- "C11": ("Bounded symbolic model checking of splicer.Splicer.Harvest over synthetic sources with symbolic timestamps and request sizes: every emitted item must be the next item of its source and a newest head (ties to the first source), answers are repeatable, a short answer means every source is exhausted, and the continuation is either empty or usable.", "4/C11"),
- "C12": ("Bounded symbolic model checking of link numbering: symbolic tree shapes over link-bearing and wrapper elements (harness-built html.Node graphs) at symbolic widths, and whole posts/profiles built by the real constructors from JSON with attachments; the numbers parsed by the terminal model must be exactly 1..N and SelectLink(k), for every 64-bit k, must open the target labelled k or nothing.", "4/C12"),
- "C13": ("Bounded symbolic model checking of ansi.Wrap/DumbWrap/Pad/Indent/Snip/SetLength on styled text built with the real ansi.Apply from symbolic characters, judged by an independent terminal model (cells with active SGR parameters): width, content and order preservation, kept line breaks, word-breaking rule, prefix+ellipsis shape.", "4/C13"),
- "C14": ("Bounded symbolic model checking of the style layer: compositions and concatenations of all style functions over symbolic characters, followed by a layout operation; the terminal model must report for every character exactly the parameter multiset computed from the expression, and an empty active set at every line end.", "4/C14"),
- "C15": ("Bounded symbolic model checking of rendered width for HTML trees, plain text and gemtext with symbolic text and width, plus an inductive cache lemma for all three Markup types with unconstrained 64-bit widths (Render equals the cache-free rendering and re-establishes the cache invariant from any state).", "4/C15"),
- "C16": ("Bounded symbolic model checking of the frame geometry (ansi.CenterVertically, ReplaceLastLine): every byte of the three strings and the height are solver variables; frame height and centring are decided by SMT for all strings within the bound.", "4/C16"),
- "C17": ("Bounded symbolic model checking of the typed accessors: the JSON kind, every finite double, every string of a few Unicode scalars and the parsers' verdicts are solver variables; classification, sanitisation and exact numeric value are asserted against a reference written from the statement.", "4/C17"),
- "C18": ("Bounded symbolic model checking of history.History[int] and feed.Feed against list/cursor reference models: operation sequences from the constructors and one inductive step from an arbitrary well-formed state.", "4/C18"),
- "C19": ("Bounded symbolic model checking of the colour converter: every string of up to 8 bytes (hence every 6-digit colour) with all bytes symbolic; acceptance and the decimal components are decided by SMT. TOML syntax and unknown keys are outside what this technique reaches (DESIGN 6).", "4/C19"),
- "C20": ("Bounded symbolic model checking of ui.openExternally: hook arguments, link and media type are symbolic byte strings; exec is a recording stub under the engine and a dump program natively; argument-wise substitution, untouched program name and the stdin fallback are asserted.", "4/C20"),
+ "C09": ("Bounded symbolic model checking of the outbox, replies and author filters: the real constructors run against a scripted two-host world whose entries are legitimate or one of several impostor kinds; every entry must appear in its position, as a genuine item exactly when the generator's ground truth says so (including an actor URL with symbolic address/port digits).", "5/C09"),
+ "C10": ("Bounded symbolic model checking of pub.Collection.Harvest through its continuations: symbolic page chains (embedded pages, empty pages, failing and ill-typed links, cycles), symbolic request sizes and start offset; delivered items must be the true sequence in order, a short answer or an error item must be justified by the end of the chain, a failing page or more than three consecutive empty pages.", "5/C10"),
+ "C11": ("Bounded symbolic model checking of splicer.Splicer.Harvest over synthetic sources with symbolic timestamps and request sizes: every emitted item must be the next item of its source and a newest head (ties to the first source), answers are repeatable, a short answer means every source is exhausted, and the continuation is either empty or usable.", "5/C11"),
+ "C12": ("Bounded symbolic model checking of link numbering: symbolic tree shapes over link-bearing and wrapper elements (harness-built html.Node graphs) at symbolic widths, and whole posts/profiles built by the real constructors from JSON with attachments; the numbers parsed by the terminal model must be exactly 1..N and SelectLink(k), for every 64-bit k, must open the target labelled k or nothing.", "5/C12"),
+ "C13": ("Bounded symbolic model checking of ansi.Wrap/DumbWrap/Pad/Indent/Snip/SetLength on styled text built with the real ansi.Apply from symbolic characters, judged by an independent terminal model (cells with active SGR parameters): width, content and order preservation, kept line breaks, word-breaking rule, prefix+ellipsis shape.", "5/C13"),
+ "C14": ("Bounded symbolic model checking of the style layer: compositions and concatenations of all style functions over symbolic characters, followed by a layout operation; the terminal model must report for every character exactly the parameter multiset computed from the expression, and an empty active set at every line end.", "5/C14"),
+ "C15": ("Bounded symbolic model checking of rendered width for HTML trees, plain text and gemtext with symbolic text and width, plus an inductive cache lemma for all three Markup types with unconstrained 64-bit widths (Render equals the cache-free rendering and re-establishes the cache invariant from any state).", "5/C15"),
+ "C16": ("Bounded symbolic model checking of the frame geometry (ansi.CenterVertically, ReplaceLastLine): every byte of the three strings and the height are solver variables; frame height and centring are decided by SMT for all strings within the bound.", "5/C16"),
+ "C17": ("Bounded symbolic model checking of the typed accessors: the JSON kind, every finite double, every string of a few Unicode scalars and the parsers' verdicts are solver variables; classification, sanitisation and exact numeric value are asserted against a reference written from the statement.", "5/C17"),
+ "C18": ("Bounded symbolic model checking of history.History[int] and feed.Feed against list/cursor reference models: operation sequences from the constructors and one inductive step from an arbitrary well-formed state.", "5/C18"),
+ "C19": ("Bounded symbolic model checking of the colour converter: every string of up to 8 bytes (hence every 6-digit colour) with all bytes symbolic; acceptance and the decimal components are decided by SMT; validation of preload, timeout, cache size (any 64-bit integers) and hook, followed by the consumers - including jtp's real package initialiser run again with the candidate cache size, confirmed natively by a child process started with that configuration. TOML syntax and unknown keys are outside what this technique reaches (DESIGN 8).", "5/C19"),
+ "C20": ("Bounded symbolic model checking of ui.openExternally: hook arguments, link and media type are symbolic byte strings; exec is a recording stub under the engine and a dump program natively; argument-wise substitution, untouched program name and the stdin fallback are asserted.", "5/C20"),
 }
 reasons={}
 checks=[]
